@@ -19,7 +19,9 @@ func StdFuncs() map[string]*FuncSpec {
 	str := FuncParam{Type: cty.String}
 	num := FuncParam{Type: cty.Number}
 	anyP := FuncParam{Type: cty.DynamicPseudoType}
-	anyNull := FuncParam{Type: cty.DynamicPseudoType, AllowNull: true}
+	// (a parameter that accepts null must also accept the untyped null literal,
+	// otherwise cty answers the call with an unknown value)
+	anyNull := FuncParam{Type: cty.DynamicPseudoType, AllowNull: true, AllowDynamic: true}
 	anyUnk := FuncParam{Type: cty.DynamicPseudoType, AllowNull: true, AllowUnknown: true, AllowDynamic: true}
 	anyMarked := FuncParam{Type: cty.DynamicPseudoType, AllowMarked: true}
 	fs := []*FuncSpec{
